@@ -32,9 +32,12 @@ def run(ctx):
     r113(ctx, m)
     r114(ctx)
     r115(ctx)
+    r116(ctx)
     # the hybrid decoder is bypassed only for fastparquet's own single-run layout (shared with C03)
     from . import c03
     c03.r33(ctx, ctx.repo['core'], ctx.repo['api'])
+    from . import callsigs as _cs
+    _cs.general_rules(ctx, 'R11', ['core', 'encoding', 'writer.make_definitions', 'writer.encode_dict', 'writer.encode_plain', 'writer.convert'])
     ctx.exhaustive = True
 
 
@@ -165,6 +168,24 @@ def r114(ctx):
     v = [norm(s.value) for s in iter_child_stmts(f2.body) if isinstance(s, ast.Assign) and norm(s.targets[0]) == 'out' and 'int64' in norm(s.value)]
     ctx.ob('R11.4', 'core.read_data_page_v2:delta-scratch-width-follows-physical-type',
            any("'int64' if longval else 'int32'" in x for x in v), str(v), core.loc(f2))
+
+
+def r116(ctx):
+    core = ctx.repo['core']
+    f = core.func('read_data_page')
+    br = [s for s in iter_child_stmts(f.body) if isinstance(s, ast.If) and norm(s.test) == 'bit_width > 8']
+    ok = len(br) == 1
+    d = ''
+    if ok:
+        wide = [norm(s.value) for s in br[0].body if isinstance(s, ast.Assign) and norm(s.targets[0]) == 'values']
+        narrow = [norm(s.value) for s in br[0].orelse if isinstance(s, ast.Assign) and norm(s.targets[0]) == 'values']
+        d = 'width>8: %s | width<=8: %s' % (wide, narrow)
+        ok = len(wide) == 1 and 'dtype=np.int32' in wide[0] and len(narrow) == 1 and 'dtype=np.uint8' in narrow[0]
+        calls = [c for c in ast.walk(br[0]) if isinstance(c, ast.Call) and callee(c) == 'encoding.read_rle_bit_packed_hybrid']
+        items = sorted(norm(k.value) for c in calls for k in c.keywords if k.arg == 'itemsize')
+        ok = ok and items == ['1', '4']
+    ctx.ob('R11.6', 'core.read_data_page:index-buffer-unsigned-8-bit-or-32-bit-with-matching-itemsize', ok,
+           'decoded dictionary indices up to 255 must not become negative: %s' % d, core.loc(br[0]) if br else core.loc(f))
 
 
 def r115(ctx):
